@@ -58,6 +58,7 @@ def cases(tier, seed):
     out.append({"name": "kernel:pos_to_line_col len<=6", "params": {"kind": "kernel", "which": "plc", "L": 6}, "budget_s": 1200, "render_errors": True})
     out.append({"name": "kernel:get_line_col_at_position len<=%d" % (3 if tier == "quick" else 4), "params": {"kind": "kernel", "which": "glc", "L": 3 if tier == "quick" else 4}, "budget_s": 3000, "render_errors": True})
     out.append({"name": "list-input", "params": {"kind": "list", "N": 3}, "budget_s": 1200, "render_errors": True})
+    out.append({"name": "equal-length-ambiguity", "params": {"kind": "amb", "N": N + 1}, "budget_s": 1500, "render_errors": True})
     tw = _case(corpus.shape("leftrec"), "glr", "LALR", 2)
     tw["name"] = "twin:" + tw["name"]
     tw["params"]["twin"] = True
@@ -91,6 +92,8 @@ def build(params, symbolic):
         return build_kernel(params, symbolic)
     if kind == "list":
         return build_list(params, symbolic)
+    if kind == "amb":
+        return build_amb(params, symbolic)
     spec = spec_from_params(params)
     N, mode = params["N"], params["mode"]
     twin = params.get("twin")
@@ -281,5 +284,62 @@ def build_list(params, symbolic):
 
     h.stats = stats
     h.expect = ["acc", "rej"]
+    h.stubs = ["realize_atomic"]
+    return h
+
+
+AMB_G = """
+S: 'k' T | T 'k';
+T: A | B;
+terminals
+A: ;
+B: ;
+"""
+
+
+def build_amb(params, symbolic):
+    """Two terminals (custom recognisers) that match the same text 'aa' with the same length: the LR parser must raise
+    DisambiguationError located at that token - after layout, on whatever line it is."""
+    N = params["N"]
+
+    def rec_a(input, pos):
+        if input[pos : pos + 2] == "aa":
+            return input[pos : pos + 2]
+
+    def rec_b(input, pos):
+        if input[pos : pos + 2] == "aa":
+            return input[pos : pos + 2]
+
+    lr = Parser(Grammar.from_string(AMB_G, recognizers={"A": rec_a, "B": rec_b}))
+    stats = {}
+
+    def h(w: str):
+        n = length_of(w, N)
+        try:
+            lr.parse(w)
+            return "ambiguous input accepted" if "aa" in w else True
+        except DisambiguationError as e:
+            p = e.location.start_position
+            # reference: first position, after layout and an optional leading 'k', where 'aa' stands
+            i = 0
+            while i < n and w[i] in "\n\r\t ":
+                i += 1
+            if i < n and w[i] == "k":
+                i += 1
+                while i < n and w[i] in "\n\r\t ":
+                    i += 1
+            if p != i:
+                return "DisambiguationError located at %r, the ambiguous token starts at %d" % (p, i)
+            if (e.location.line, e.location.column) != ref_line_col(w, n, p):
+                return "DisambiguationError line/column %r for position %d" % ((e.location.line, e.location.column), p)
+            str(e)
+            bump(stats, "ambiguous")
+            return True
+        except parglare.SyntaxError:
+            bump(stats, "syntax")
+            return True
+
+    h.stats = stats
+    h.expect = ["ambiguous", "syntax"]
     h.stubs = ["realize_atomic"]
     return h
